@@ -124,29 +124,18 @@ Proof.
   apply andb_true_iff in Hho. destruct Hho as [Ha _]. subst q. eauto.
 Qed.
 
-Section Start.
-Variables St T D : rel -> list nat.
-Variable R : rel -> list (vtuple V).
-Hypothesis HR : rows_ok R.
-Hypothesis Hcov : forall r i, is_dyn dyn r = true -> i < length (R r) -> In i (T r) \/ In i (D r).
-
 Notation latdyn := (latdyn islat sc).
-Notation kidx := (kidx I R).
 
 Lemma latdyn_split : forall r, latdyn r = true -> islat r = true /\ is_dyn dyn r = true.
 Proof. intros r H. unfold LatParModel.latdyn in H. apply andb_true_iff in H. exact H. Qed.
 
-Lemma row_pos : forall r row, latdyn r = true -> In row (R r) -> 0 < length row.
-Proof.
-  intros r row Hr Hin. destruct (latdyn_split r Hr) as [Hl Hd]. destruct (dyn_arity r Hd) as [n Hn].
-  rewrite (ro_ar _ _ _ _ _ _ HR r row Hin n Hn). eapply Hlat1; eauto.
-Qed.
-
-Lemma start_rows_back : forall r, latdyn r = true -> map torow (map ofrow (R r)) = R r.
-Proof.
-  intros r Hr. rewrite map_map. rewrite <- (map_id (R r)) at 2. apply map_ext_in. intros row Hin.
-  apply torow_ofrow. eapply row_pos; eauto.
-Qed.
+(* ---------- the frozen key indices of delta / total are sound and complete for the rows at the start ---------- *)
+Section Keys.
+Variables T D : rel -> list nat.
+Variable R : rel -> list (vtuple V).
+Hypothesis Hkeys : forall r, islat r = true -> NoDup (map tkey (R r)).
+Hypothesis Hcov : forall r i, is_dyn dyn r = true -> i < length (R r) -> In i (T r) \/ In i (D r).
+Notation kidx := (kidx I R).
 
 Lemma start_hasrow : forall r i k, ParLatProofs.hasrow (map ofrow (R r)) i k <-> exists row, nth_error (R r) i = Some row /\ tkey row = k.
 Proof.
@@ -169,8 +158,8 @@ Proof.
   - intros [row [Hn Hk]].
     assert (Huniq : forall i' row', nth_error (R r) i' = Some row' -> tkey row' = k -> i' = i).
     { intros i' row' Hn' Hk'. assert (row' = row).
-      { apply (nodup_map_inj _ _ tkey (R r)); [apply (ro_key _ _ _ _ _ _ HR r Hl) | eapply nth_error_In; eauto | eapply nth_error_In; eauto | congruence]. }
-      subst row'. pose proof (ro_key _ _ _ _ _ _ HR r Hl) as N. apply (NoDup_map_inv tkey) in N.
+      { apply (nodup_map_inj _ _ tkey (R r)); [apply (Hkeys r Hl) | eapply nth_error_In; eauto | eapply nth_error_In; eauto | congruence]. }
+      subst row'. pose proof (Hkeys r Hl) as N. apply (NoDup_map_inv tkey) in N.
       eapply NoDup_nth_error; eauto; [eapply nth_error_In_lt; eauto | congruence]. }
     assert (Hres : forall l i', find_key I (R r) k l = Some i' -> i' = i).
     { intros l i' H. apply (find_key_some I Heq) in H. destruct H as [_ [row' [Hn' Hk']]]. eapply Huniq; eauto. }
@@ -180,6 +169,43 @@ Proof.
       * destruct (find_key_total (R r) k (T r) i row HT Hn Hk) as [i' E]. rewrite E. f_equal. eapply Hres; eauto.
       * exfalso. exact (find_key_none I Heq _ _ _ ED i row HD Hn Hk).
 Qed.
+
+(* every state a schedule reaches satisfies the structural invariant of ParLatProofs, whatever the contributions are;
+   hence no deadlock among the head updates: an unfinished lattice relation has a worker that can move *)
+Lemma run_inv1_any : forall (mx : list V -> nat) kfirst work sched r, latdyn r = true ->
+  ParLatProofs.inv1 keqb mx kfirst (kidx D r) (kidx T r)
+    (ParLat.run_sched keqb (jm r) mx kfirst true (kidx D r) (kidx T r) (ParLat.par_init (map ofrow (R r)) [] [] false work) sched).
+Proof.
+  intros mx kfirst work sched r Hr. destruct (latdyn_split r Hr) as [Hl Hd].
+  apply (ParLatProofs.run_inv1 keqb keqb_spec). apply (fresh_inv1 keqb).
+  - rewrite map_map. erewrite map_ext; [apply (Hkeys r Hl)|]. intros row. reflexivity.
+  - apply start_fz. exact Hr.
+Qed.
+End Keys.
+
+Section Start.
+Variables St T D : rel -> list nat.
+Variable R : rel -> list (vtuple V).
+Hypothesis HR : rows_ok R.
+Hypothesis Hcov : forall r i, is_dyn dyn r = true -> i < length (R r) -> In i (T r) \/ In i (D r).
+
+Notation kidx := (kidx I R).
+
+Lemma row_pos : forall r row, latdyn r = true -> In row (R r) -> 0 < length row.
+Proof.
+  intros r row Hr Hin. destruct (latdyn_split r Hr) as [Hl Hd]. destruct (dyn_arity r Hd) as [n Hn].
+  rewrite (ro_ar _ _ _ _ _ _ HR r row Hin n Hn). eapply Hlat1; eauto.
+Qed.
+
+Lemma start_rows_back : forall r, latdyn r = true -> map torow (map ofrow (R r)) = R r.
+Proof.
+  intros r Hr. rewrite map_map. rewrite <- (map_id (R r)) at 2. apply map_ext_in. intros row Hin.
+  apply torow_ofrow. eapply row_pos; eauto.
+Qed.
+
+Lemma start_fz_s : forall r, latdyn r = true -> forall k i,
+  ParLatProofs.fz (kidx D r) (kidx T r) k = Some i <-> ParLatProofs.hasrow (map ofrow (R r)) i k.
+Proof. exact (start_fz T D R (ro_key _ _ _ _ _ _ HR) Hcov). Qed.
 
 (* ---------- a run ---------- *)
 Section Run.
@@ -260,7 +286,7 @@ Proof.
   constructor; intros r Hr; destruct (latdyn_split r Hr) as [Hl Hd]; unfold LatParModel.ginit.
   - apply (fresh_inv1 keqb).
     + rewrite <- map_tkey_torow, start_rows_back by exact Hr. apply (ro_key _ _ _ _ _ _ HR r Hl).
-    + apply start_fz. exact Hr.
+    + apply start_fz_s. exact Hr.
   - cbn [ParLat.par_init ParLat.lrows]. intros i kv H. apply nth_error_map_some in H. destruct H as [row [Hn ->]].
     apply start_good; [exact Hr | eapply nth_error_In; eauto].
   - intros j w kv H Hin. destruct (fresh_worker _ _ _ _ H) as [Hp _]. rewrite Hp in Hin. destruct Hin.
@@ -404,7 +430,7 @@ Lemma start_init_ok : forall r, latdyn r = true ->
 Proof.
   intros r Hr. destruct (latdyn_split r Hr) as [Hl Hd]. apply ParLatProofs.fresh_init_ok.
   - rewrite <- map_tkey_torow, start_rows_back by exact Hr. apply (ro_key _ _ _ _ _ _ HR r Hl).
-  - apply start_fz. exact Hr.
+  - apply start_fz_s. exact Hr.
   - intros i k c H. apply nth_error_map_some in H. destruct H as [row [Hn E]]. unfold LatParModel.ofrow in E. injection E as -> ->.
     apply (ro_wf _ _ _ _ _ _ HR r row Hl). eapply nth_error_In; eauto.
   - intros k v Hin. destruct (work_good r Hr (k, v) Hin) as [[_ [_ Hw]] _]. specialize (Hw Hl). cbn [fst snd] in Hw. rewrite tval_torow in Hw. exact Hw.
@@ -599,6 +625,20 @@ Proof.
 Qed.
 End Run.
 End Start.
+
+(* no deadlock: in EVERY state an iteration can reach (any contributions, any schedule), a lattice relation whose head updates
+   are not finished has a worker that can perform a step *)
+Theorem par_lat_no_deadlock : forall T D R (mx : rel -> list V -> nat) kfirst work sched r,
+  (forall r, islat r = true -> NoDup (map tkey (R r))) ->
+  (forall r i, is_dyn dyn r = true -> i < length (R r) -> In i (T r) \/ In i (D r)) ->
+  latdyn r = true ->
+  let s := grun I jm T D R mx kfirst (ginit I R work) sched r in
+  ParLat.finished s = false -> exists j, ParLat.enabled (mx r) s j = true.
+Proof.
+  intros T D R mx kfirst work sched r Hkeys Hcov Hr s F. unfold s in *. rewrite grun_proj in *.
+  eapply ParLatProofs.progress1; [|exact F]. unfold LatParModel.ginit.
+  apply (run_inv1_any T D R Hkeys Hcov (mx r) (kfirst r) (work r) (proj r sched) r Hr).
+Qed.
 
 (* one parallel iteration: the invariant of LatItems / LatHead holds of the final state, and every variant's instances over
    the start rows are covered - what LatScc.iteration_spec says of the serial scc_iteration *)
